@@ -247,7 +247,7 @@ pub fn check_in(ctx: &Ctx, case: &CliCase) -> Report {
 }
 
 fn strat() -> impl Strategy<Value = CliCase> {
-    let cfg = GenCfg { max_contig: 1500, max_samples: 5, many_samples_pct: 0, single_file: None, vary_presentation: false };
+    let cfg = GenCfg { max_contig: 1500, max_samples: 5, many_samples_pct: 0, single_file: None, vary_presentation: false, swarm_pct: 0 };
     (
         gen::collection_strategy(cfg),
         prop::bool::weighted(0.12),
